@@ -13,6 +13,7 @@ from ..gen import tlbvals as V
 from .. import tracetlb as TR
 from .. import tlbsrc as SRC
 from .. import tlbsrc_tx as SRCTX
+from .. import tlbsrc_blk as SRCBLK
 
 SPEC = dict(
     manifest=dict(
@@ -84,7 +85,7 @@ SPEC = dict(
                   'source and proved to refine the spec decoder, + 23 classes of tlb/transaction.py incl. Transaction for every nesting budget) + differential '
                   'encoder->parser correspondence with the library + path-complete read-trace comparison (recording slice vs '
                   'proved spec trace)'),
-    translators=SRC.translator_entries() + SRCTX.translator_entries(),
+    translators=SRC.translator_entries() + SRCTX.translator_entries() + SRCBLK.translator_entries(),
     design_ref='DESIGN.md §6 C16',
     rule='for every covered type: values generated by the Lean codec generators (every constructor alternative and Maybe/Either '
          'choice at random, integer fields from {0, 1, max, top bit, random}, random bit strings, random small Patricia trees) '
@@ -897,10 +898,12 @@ def run(ctx):
     # the oracle first), then translator validation (regenerated Lean reader vs the real deserialize on the same cells)
     SRC.theorem_check(ctx, check_value, P)
     SRCTX.theorem_check(ctx, check_value, P)
+    SRCBLK.theorem_check(ctx, check_value, P)
     if ctx.search and ctx.failures:
         return        # a broken c16_src_* obligation already has its concrete failing input
     SRC.validate(ctx)
     SRCTX.validate(ctx)
+    SRCBLK.validate(ctx)
     late = ['TransactionDescr', 'Transaction', 'MsgEnvelope', 'InMsg', 'OutMsg', 'AccountBlock', 'InMsgDescr', 'OutMsgDescr', 'ShardAccountBlocks',
             'McBlockExtra', 'McStateExtra', 'BlockExtra', 'Block', 'ShardStateUnsplit', 'ShardState']
     order = sorted(t for t in P if t not in late) + late
